@@ -1,2 +1,341 @@
-"""Resources suite (C12 C15 C16) - under construction."""
-PROPS = []
+"""Resources suite (properties C12 C15 C16).
+ 1. TLC checks the internal-consistency lemmas of ResourceRules.tla over every tree on a small universe (Resources.tla);
+ 2. generated trees x declarations are materialised on disk; zinoma's own listing (fs::list_files_in_resources through the real
+    loader, so extension normalisation is zinoma's), cleaning (clean::clean_target_output_paths, and `--clean` of the real binary)
+    and the REAL TargetWatcher (real inotify, every operation closed by a sentinel edit) are exercised;
+ 3. TLC folds the results through ResourcesObs.tla, i.e. compares them with the three-valued rules of ResourceRules.tla."""
+import concurrent.futures as cf
+import hashlib, json, os, random, re, time
+
+from common import *  # noqa: F403
+
+PROPS = ["C12", "C15", "C16"]
+VIOL_RE = re.compile(r'^"?MONITOR-VIOLATION (C\d+) @(\d+) (.*?)"?$')
+
+FILE_NAMES = ["a.txt", "b.csv", "c.tar.gz", "txt", ".txt", ".hidden", "d.txt~", ".e.swp", ".e.txt.swx", "f.TXT", "g.o", "h.out.csv",
+              "noext", "i.txt.bak", "bad\xff.txt", "weird name.txt", "x.o", "y.gz"]
+EXTS = [None, [], ["txt"], [".txt"], ["", "txt"], ["gz"], ["tar.gz"], ["TXT"], ["o", "csv"], [".o"], [""], ["out.csv"]]
+DIRS = [["src"], ["src", "sub"], ["src", ".zinoma"], ["src", "sub", ".zinoma"], ["src", "sub", "deep"], ["out"], ["out", "sub"], ["lib"]]
+
+
+def lossy(b):
+    return b.decode("utf-8", "replace").replace("�", "?")
+
+
+def comp_json(c):
+    """component for the harness: plain string, or {"hex":..} when not UTF-8"""
+    if isinstance(c, bytes):
+        try:
+            return c.decode("utf-8")
+        except UnicodeDecodeError:
+            return {"hex": c.hex()}
+    return c
+
+
+def name_bytes(n):
+    return n.encode("latin-1") if "\xff" in n else n.encode()
+
+
+def gen_tree(rng):
+    """returns (nodes for the harness, abstract tree) ; project root = 'proj', an 'elsewhere' sibling holds link targets"""
+    nodes, tree = [], []
+    dirs = [d for d in DIRS if rng.random() < 0.6]
+    dirs = [d for d in dirs if all(d[:i] in dirs or i == 0 for i in range(1, len(d)))]
+    have = set()
+    for d in sorted(dirs, key=len):
+        if len(d) > 1 and tuple(d[:-1]) not in have:
+            continue
+        have.add(tuple(d))
+        nodes.append({"path": {"segs": ["proj"] + d}, "type": "dir"})
+        tree.append({"p": d, "ty": "dir"})
+    files = []
+    for d in [[]] + [list(h) for h in have]:
+        for n in rng.sample(FILE_NAMES, rng.randint(0, 5)):
+            nb = name_bytes(n)
+            nodes.append({"path": {"segs": ["proj"] + d + [comp_json(nb)]}, "type": "file", "content": n})
+            tree.append({"p": d + [lossy(nb)], "ty": "file"})
+            files.append(d + [n])
+    # elsewhere: real files reachable only through links
+    nodes.append({"path": {"segs": ["elsewhere", "d", "sub"]}, "type": "dir"})
+    for n in ("x.o", "keep.txt", "z.csv"):
+        nodes.append({"path": {"segs": ["elsewhere", "d", n]}, "type": "file", "content": n})
+    nodes.append({"path": {"segs": ["elsewhere", "d", "sub", "y.o"]}, "type": "file", "content": "y"})
+    links = []
+    if rng.random() < 0.5:
+        links.append((["linkdir"], "../elsewhere/d"))
+    if ("src",) in have and rng.random() < 0.4:
+        links.append((["src", "inner"], "../../elsewhere/d/sub"))
+    if ("src",) in have and rng.random() < 0.4:
+        links.append((["src", "lf.txt"], "../../elsewhere/d/keep.txt"))
+    if ("out",) in have and rng.random() < 0.4:
+        links.append((["out", "latest.o"], "../../elsewhere/d/x.o"))
+    if rng.random() < 0.3:
+        links.append((["dangling.txt"], "nowhere/at/all"))
+    for p, to in links:
+        nodes.append({"path": {"segs": ["proj"] + p}, "type": "link", "to": to})
+        tree.append({"p": p, "ty": "link"})
+    return nodes, tree, sorted(have), files
+
+
+def gen_decl(rng, have, files):
+    cands = [list(h) for h in have] + [["linkdir"], ["missing"], ["linkdir", "sub"], ["src", "inner"]]
+    if files:
+        cands += [f for f in rng.sample(files, min(2, len(files))) if "\xff" not in f[-1]]
+    paths = rng.sample(cands, min(len(cands), rng.choice([1, 1, 2, 3])))
+    return {"paths": paths, "exts": rng.choice(EXTS)}
+
+
+def yaml_res(decls, key):
+    lines = ["    %s:" % key]
+    for d in decls:
+        lines.append("      - paths: [%s]" % ", ".join("'%s'" % "/".join(p) for p in d["paths"]))
+        if d["exts"] is not None:
+            lines.append("        extensions: [%s]" % ", ".join("'%s'" % e for e in d["exts"]))
+    return lines
+
+
+def make_cases(tier, seed):
+    rng = random.Random(seed * 17 + 3)
+    quick = tier != "thorough"
+    cases = []
+    for k in range(1500 if quick else 20000):
+        nodes, tree, have, files = gen_tree(rng)
+        decls = [gen_decl(rng, have, files) for _ in range(rng.choice([1, 1, 2]))]
+        kind = "list" if k % 2 == 0 else "clean"
+        key = "input" if kind == "list" else "output"
+        y = "\n".join(["targets:", "  t:", "    build: 'true'"] + yaml_res(decls, key)) + "\n"
+        m = {"tree": tree, "resources": [{"paths": d["paths"], "exts": d["exts"] or []} for d in decls], "also": []}
+        cases.append({"id": "%s%d" % (kind[0], k), "kindcase": kind, "m": m,
+                      "job": {"id": "%s%d" % (kind[0], k), "tree": nodes, "project": "proj", "yaml": y, "requested": ["t"],
+                              "clean": kind == "clean", "paths": []}})
+    return cases
+
+
+def make_watch_cases(tier, seed):
+    rng = random.Random(seed * 19 + 7)
+    quick = tier != "thorough"
+    cases = []
+    for k in range(40 if quick else 400):
+        exts = rng.choice([None, ["txt"], ["csv", "o"], [".txt"], ["tar.gz"]])
+        tree = [{"path": {"segs": ["src", "sub"]}, "type": "dir"}, {"path": {"segs": ["src", ".zinoma"]}, "type": "dir"},
+                {"path": {"segs": ["src", "sentinel" + (("." + exts[0].lstrip(".")) if exts else ".txt")]}, "type": "file", "content": "s"}]
+        sent = "src/sentinel" + (("." + exts[0].lstrip(".")) if exts else ".txt")
+        y = "\n".join(["targets:", "  t:", "    build: 'true'", "    input:", "      - paths: [src]"] +
+                      (["        extensions: [%s]" % ", ".join("'%s'" % e for e in exts)] if exts is not None else [])) + "\n"
+        ops, mops = [], []
+        created = []
+        for _ in range(rng.randint(4, 10)):
+            d = rng.choice([["src"], ["src", "sub"], ["src", ".zinoma"], ["src", "sub"]])
+            n = rng.choice(FILE_NAMES)
+            nb = name_bytes(n)
+            p = d + [n]
+            kindop = rng.choice(["create", "create", "modify", "delete", "rename"])
+            if kindop in ("delete", "rename", "modify") and not created:
+                kindop = "create"
+            if kindop == "create":
+                ops.append({"op": "create", "path": {"segs": d + [comp_json(nb)]}})
+                mops.append({"kind": "create", "p": d + [lossy(nb)], "to": [], "check": True})
+                if (d, nb) not in created:
+                    created.append((d, nb))
+            elif kindop == "modify":
+                d2, nb2 = rng.choice(created)
+                ops.append({"op": "modify", "path": {"segs": d2 + [comp_json(nb2)]}})
+                mops.append({"kind": "modify", "p": d2 + [lossy(nb2)], "to": [], "check": True})
+            elif kindop == "delete":
+                d2, nb2 = created.pop(rng.randrange(len(created)))
+                ops.append({"op": "delete", "path": {"segs": d2 + [comp_json(nb2)]}})
+                mops.append({"kind": "delete", "p": d2 + [lossy(nb2)], "to": [], "check": True})
+            else:
+                d2, nb2 = created.pop(rng.randrange(len(created)))
+                n3 = rng.choice([x for x in FILE_NAMES if name_bytes(x) != nb2])
+                nb3 = name_bytes(n3)
+                d3 = rng.choice([["src"], ["src", "sub"]])
+                ops.append({"op": "rename", "path": {"segs": d2 + [comp_json(nb2)]}, "to": {"segs": d3 + [comp_json(nb3)]}})
+                mops.append({"kind": "rename", "p": d2 + [lossy(nb2)], "to": d3 + [lossy(nb3)], "check": True})
+                if (d3, nb3) not in created:
+                    created.append((d3, nb3))
+        m = {"exts": exts or [], "ops": mops, "also": []}
+        cases.append({"id": "w%d" % k, "kindcase": "watch", "m": m,
+                      "job": {"id": "w%d" % k, "tree": tree, "yaml": y, "requested": ["t"], "sentinel": sent, "ops": ops, "settle_ms": 30}})
+    return cases
+
+
+def hex_to_comps(h, strip):
+    b = bytes.fromhex(h)
+    comps = [lossy(c) for c in b.split(b"/")]
+    return comps[len(strip):] if comps[:len(strip)] == strip else None
+
+
+def normalise(case, r):
+    k = case["kindcase"]
+    if k == "watch":
+        if "results" not in r:
+            return {"results": [{"triggered": False, "alive": False} for _ in case["m"]["ops"]], "error": r.get("error", "?")}
+        return {"results": r["results"]}
+    rr = r.get("r") or {}
+    ok = "listed" in rr
+    if k == "list":
+        listed = []
+        if ok:
+            for h in (rr["listed"].get("t") or {}).get("input", []):
+                c = hex_to_comps(h, ["proj"])
+                listed.append(c if c is not None else ["<outside>"] + [lossy(x) for x in bytes.fromhex(h).split(b"/")])
+        return {"ok": ok, "listed": listed}
+    # clean: removed = real nodes of the tree that are gone
+    after = {tuple(lossy(c) for c in bytes.fromhex(n["hex"]).split(b"/")) for n in r.get("after", [])}
+    removed = []
+    for n in case["m"]["tree"]:
+        if ("proj",) + tuple(n["p"]) not in after:
+            removed.append(n["p"])
+    # anything outside the project that vanished is reported with an <outside> marker (must never happen)
+    for extra in (("elsewhere", "d", "x.o"), ("elsewhere", "d", "keep.txt"), ("elsewhere", "d", "z.csv"), ("elsewhere", "d", "sub", "y.o"),
+                  ("elsewhere", "d", "sub"), ("elsewhere", "d")):
+        if extra not in after:
+            removed.append(["<outside>"] + list(extra))
+    return {"ok": ok, "removed": removed}
+
+
+def run_shard(args):
+    name, cases, mode = args
+    jp = os.path.join(CACHE, "jobs", name + ".json")
+    out = os.path.join(CACHE, "jobs", name + ".ndjson")
+    json.dump({"out": out, "scratch": os.path.join(CACHE, "scratch"), "cases": [c["job"] for c in cases]}, open(jp, "w"))
+    rc, o = run(["timeout", "-k", "2", "1500", ZV, mode, jp], timeout=1600)
+    got = {}
+    if os.path.exists(out):
+        for l in open(out):
+            r = json.loads(l)
+            got[r["id"]] = r
+    lines = []
+    for c in cases:
+        if c["id"] in got:
+            ob = normalise(c, got[c["id"]])
+        elif c["kindcase"] == "watch":
+            ob = {"results": [{"triggered": False, "alive": False} for _ in c["m"]["ops"]]}
+        else:
+            ob = {"ok": False, "listed": [], "removed": []}
+        lines.append({"id": c["id"], "kindcase": c["kindcase"], "m": c["m"], "obs": ob})
+    obs = os.path.join(CACHE, "jobs", name + ".obs.ndjson")
+    with open(obs, "w") as f:
+        for l in lines:
+            f.write(json.dumps(l) + "\n")
+    rc2, o2 = tlc("ResourcesObs.tla", "EngineObs.cfg", workers=1, env={"TRACE": obs}, timeout=1200,
+                  java_opts="-Xss1g -Xmx3g -Dtlc2.tool.queue.IStateQueue=StateDeque", metaname="robs_" + name)
+    viol = []
+    for line in o2.splitlines():
+        m = VIOL_RE.match(line.strip())
+        if m:
+            viol.append({"prop": m.group(1), "sig": m.group(3), "line": int(m.group(2))})
+    if "TRACE-LINES" not in o2 or "TRACE-NOT-CONSUMED" in o2:
+        return {"name": name, "error": "trace validation failed: " + "\n".join(x for x in o2.splitlines() if not TLC_NOISE.match(x))[-2000:]}
+    return {"name": name, "lines": lines, "viol": viol, "mode": mode}
+
+
+def mc(tier):
+    spec_h = tree_hash([os.path.join(SPEC, f) for f in ("Resources.tla", "ResourceRules.tla", "Resources.cfg")])
+    cp = os.path.join(RESULTS, "mc_resources_%s.json" % spec_h)
+    if os.path.exists(cp):
+        return {"resources": json.load(open(cp))}
+    t0 = time.time()
+    rc, o = tlc("Resources.tla", "Resources.cfg", workers=min(8, NCPU), timeout=1500, metaname="mc_resources")
+    st = tlc_stats(o)
+    st.update({"name": "resources", "constants": {}, "wall_s": round(time.time() - t0, 1),
+               "invariants": ["Monotone", "NoWorkDir", "CleanWithin", "CleanIsDenoted", "NeverThroughLink", "Idem", "MissingContributesNothing", "SelfOK"]})
+    if st["ok"]:
+        json.dump(st, open(cp, "w"))
+    else:
+        st["tail"] = "\n".join(l for l in o.splitlines() if not TLC_NOISE.match(l))[-2500:]
+    log("TLC resources: %s distinct=%d %.0fs" % ("ok" if st["ok"] else "FAILED", st["distinct"], st["wall_s"]))
+    return {"resources": st}
+
+
+KIND_OF = {"C12": "clean", "C15": "list", "C16": "watch"}
+
+
+def suite(tier, seed):
+    key = "res_%s_%s_%s_%d" % (repo_hash(), verif_hash(), tier, seed)
+    cp = os.path.join(RESULTS, key + ".json")
+    if os.path.exists(cp):
+        return json.load(open(cp))
+    with Lock("res-suite"):
+        if os.path.exists(cp):
+            return json.load(open(cp))
+        t0 = time.time()
+        build_harness()
+        res = {"engine": "resources", "mc": mc(tier), "tier": tier, "seed": seed, "violations": [], "tool_errors": [], "runs": 0,
+               "traces_validated": 0, "samples": [], "nontrivial": {}, "by_kind": {}}
+        cases = make_cases(tier, seed)
+        wcases = make_watch_cases(tier, seed)
+        byid = {c["id"]: c for c in cases + wcases}
+        k = NCPU
+        tag = "r%s%d_%d" % (tier[0], seed, os.getpid())
+        shards = [("%s_%d" % (tag, s), cases[s::k], "res") for s in range(k)]
+        # the watcher cases use real inotify and real time: few at a time
+        shards += [("%s_w%d" % (tag, s), wcases[s::4], "watch") for s in range(4)]
+        with cf.ThreadPoolExecutor(NCPU) as ex:
+            rs = list(ex.map(run_shard, shards))
+        seen = {p: set() for p in PROPS}
+        for r in rs:
+            if "error" in r:
+                res["tool_errors"].append({"job": r["name"], "what": r["error"]})
+                continue
+            for ln in r["lines"]:
+                c = byid[ln["id"]]
+                res["runs"] += 1
+                res["traces_validated"] += 1
+                res["by_kind"][c["kindcase"]] = res["by_kind"].get(c["kindcase"], 0) + 1
+                fp = hashlib.md5(json.dumps(c["m"], sort_keys=True).encode()).hexdigest()
+                for p, kd in KIND_OF.items():
+                    if c["kindcase"] == kd:
+                        seen[p].add(fp)
+                if len([s for s in res["samples"] if s["kind"] == c["kindcase"]]) < 1:
+                    res["samples"].append({"kind": c["kindcase"], "case": c["m"], "observed": ln["obs"]})
+            for v in r["viol"]:
+                ln = r["lines"][v["line"] - 1]
+                res["violations"].append({"prop": v["prop"], "sig": v["sig"][:600], "group": "resources:" + ln["kindcase"], "case": byid[ln["id"]],
+                                          "observed": ln["obs"], "confirmed": False})
+        res["nontrivial"] = {p: len(s) for p, s in seen.items()}
+        for name, st in res["mc"].items():
+            if not st["ok"]:
+                res["tool_errors"].append({"job": "tlc:" + name, "what": "lemma checking failed", "tail": st.get("tail", "")})
+        res["wall_s"] = round(time.time() - t0, 1)
+        if not res["tool_errors"]:
+            json.dump(res, open(cp, "w"))
+        return res
+
+
+def replay(pid, path):
+    rp = json.load(open(path))
+    build_harness()
+    c = rp["case"]
+    viols = []
+    # watcher verdicts rest on real time: a violation must recur in 2 of 3 re-executions
+    reps = 3 if c["kindcase"] == "watch" else 1
+    hits = 0
+    for i in range(reps):
+        r = run_shard(("rreplay_%d_%d" % (os.getpid(), i), [c], "watch" if c["kindcase"] == "watch" else "res"))
+        if "error" in r:
+            raise ToolError(r["error"])
+        v = [x for x in r["viol"] if x["prop"] == pid]
+        if v:
+            hits += 1
+            viols = v
+    return (viols if hits >= (2 if reps == 3 else 1) else []), "replayed %d/%d" % (hits, reps)
+
+
+def describe(pid, res):
+    st = res["mc"]["resources"]
+    cov = {"states": st["distinct"], "transitions": st["generated"], "traces_validated_against_impl": res["traces_validated"],
+           "samples": [s for s in res["samples"] if s["kind"] == KIND_OF[pid]][:1] + [{"tlc_configuration": "Resources.cfg",
+                       "lemmas": st["invariants"], "distinct_states": st["distinct"]}],
+           "evaluations": res["by_kind"].get(KIND_OF[pid], 0), "distinct_nontrivial": res["nontrivial"].get(pid, 0),
+           "rule": "one evaluation = one generated tree (nested directories, .zinoma at several depths, multi-dot / dot / tilde / swap / "
+                   "non-UTF-8 names, links to files and directories inside and outside the project, dangling links) x declaration "
+                   "(paths incl. missing and linked ones, extension lists incl. empty entries) materialised on disk and given to "
+                   "zinoma's own code; TLC compares with the three-valued rules of ResourceRules.tla; kind for %s: %s" % (pid, KIND_OF[pid]),
+           "exhaustive": False, "by_kind": res["by_kind"], "generated_case_use_of_TLC": True}
+    assumptions = ["trees are bounded (depth <= 4, <= ~25 nodes) and live on this sandbox's file system only",
+                   "where C12/C15 are silent (symbolic links as listed entries, files below a linked listed path, .zinoma above the listed path) "
+                   "the oracle accepts either behaviour",
+                   "watcher cases depend on real inotify timing: every operation is closed by a sentinel edit; a reported violation must recur in 2 of 3 re-executions"]
+    return cov, "model_checking", assumptions
